@@ -436,3 +436,151 @@ def statement(native_evs_all, final_fields):
         if gone.count(v) > newv.count(v):
             bad.append("value %s destroyed/handed over %d times but created %d times" % (v, gone.count(v), newv.count(v)))
     return bad
+
+
+# ------------------------------------------------------------------------------------------ leg B: handles inside aggregates
+# Random worlds (lib/witgen.py) in which some `u32` leaves of function signatures and type definitions are turned into
+# own<r> / borrow<r> of an imported resource: the generated HandleLift/HandleLower code is exercised in nested positions
+# (lists, options, records, variants, tuples, results) under many generator option sets, with the CM handle table of rt.rs
+# as the host and the exactly-once accounting of C07's statement as the judge.
+def inject_handles(rng, wit):
+    """-> WIT text with a new imported interface `hres { resource r; }`, `use hres.{r}` in every interface and the world,
+    and a seeded subset of `u32` tokens replaced by `r` (everywhere) or `borrow<r>` (function parameters only)"""
+    out = []
+    in_iface = False
+    for line in wit.split("\n"):
+        st = line.strip()
+        if st.startswith("interface ") and st.endswith("{"):
+            in_iface = True
+            out.append(line)
+            out.append("  use hres.{r};")
+            continue
+        if st.startswith("world ") and st.endswith("{"):
+            out.append(line)
+            out.append("  import hres;")
+            out.append("  use hres.{r};")
+            continue
+        m = re.match(r"^(\s*(?:import |export )?[%a-z0-9-]+: func\()(.*)(\)(?: -> .*)?;)\s*$", line)
+        if m:
+            params, tail = m.group(2), m.group(3)
+            params = re.sub(r"\b[us]32\b", lambda m_: rng.weighted([(m_.group(0), 2), ("r", 2), ("borrow<r>", 2)]), params)
+            tail = re.sub(r"\b[us]32\b", lambda m_: rng.weighted([(m_.group(0), 1), ("r", 2)]), tail)
+            out.append(m.group(1) + params + tail)
+            continue
+        if re.search(r"\b[us]32\b", line) and not st.startswith(("package", "use ")):
+            line = re.sub(r"(?<!map<)\b[us]32\b", lambda m_: rng.weighted([(m_.group(0), 2), ("r", 1)]), line)
+        out.append(line)
+    text = "\n".join(out)
+    pkg_end = text.index(";") + 1
+    return text[:pkg_end] + "\n\ninterface hres {\n  resource r;\n}\n" + text[pkg_end:]
+
+
+def handle_leaves(t, v, acc, inside_param):
+    """collect (kind, value) of every own/borrow leaf of v : t in order"""
+    k = t["k"]
+    if k in ("own", "borrow"):
+        acc.append((k, v[1]))
+    elif k in ("list", "fixed"):
+        for x in v[1]:
+            handle_leaves(t["t"], x, acc, inside_param)
+    elif k == "map":
+        for e in v[1]:
+            handle_leaves(t["key"], e[1][0], acc, inside_param)
+            handle_leaves(t["val"], e[1][1], acc, inside_param)
+    elif k == "tuple":
+        for tt, x in zip(t["ts"], v[1]):
+            handle_leaves(tt, x, acc, inside_param)
+    elif k == "record":
+        for f, x in zip(t["fields"], v[1]):
+            handle_leaves(f["t"], x, acc, inside_param)
+    elif k == "option":
+        if v[1] == 1:
+            handle_leaves(t["t"], v[2], acc, inside_param)
+    elif k == "result":
+        pt = t["ok"] if v[1] == 0 else t["err"]
+        if pt:
+            handle_leaves(pt, v[2], acc, inside_param)
+    elif k == "variant":
+        pt = t["cases"][v[1]]["t"]
+        if pt:
+            handle_leaves(pt, v[2], acc, inside_param)
+    return acc
+
+
+def subst_handles(t, v, fresh):
+    """rebuild v with every own/borrow leaf replaced by fresh(kind)"""
+    k = t["k"]
+    if k in ("own", "borrow"):
+        return ("n", fresh(k))
+    if k in ("list", "fixed"):
+        return ("l", [subst_handles(t["t"], x, fresh) for x in v[1]])
+    if k == "map":
+        return ("l", [("r", [subst_handles(t["key"], e[1][0], fresh), subst_handles(t["val"], e[1][1], fresh)]) for e in v[1]])
+    if k == "tuple":
+        return ("r", [subst_handles(tt, x, fresh) for tt, x in zip(t["ts"], v[1])])
+    if k == "record":
+        return ("r", [subst_handles(f["t"], x, fresh) for f, x in zip(t["fields"], v[1])])
+    if k == "option":
+        return ("v", v[1], subst_handles(t["t"], v[2], fresh) if v[1] == 1 else None)
+    if k == "result":
+        pt = t["ok"] if v[1] == 0 else t["err"]
+        return ("v", v[1], subst_handles(pt, v[2], fresh) if pt else None)
+    if k == "variant":
+        pt = t["cases"][v[1]]["t"]
+        return ("v", v[1], subst_handles(pt, v[2], fresh) if pt else None)
+    return v
+
+
+def handle_call(R, guest, mod, fm, args, ret):
+    """one call of a function whose values carry handles: allocates the table entries the call needs, performs the call
+    through the ordinary value engine (R = genrun_rust.Runner), does the host-side lifts, and returns
+    (findings of the value/memory engine, expected event multiset, actual events, table dump fields)"""
+    def ask(line):
+        r = guest.ask(line)
+        if r is None or not r.startswith("OK"):
+            raise G.GuestDied(guest.proc.last_err if r is None else r)
+        return r
+    expected = []
+    rep = [1000]
+
+    def adder(own):
+        def fresh(kind):
+            rep[0] += 1
+            o = own if own is not None else (kind == "own")
+            h = int(ask("HT ADD 0 %d %d" % (1 if o else 0, rep[0])).split()[1])
+            expected.append("newh:%d:%d" % (h, 1 if o else 0))
+            return h
+        return fresh
+    if fm.dir == "export":
+        # parameters: the host lowers own handles (own entries) and lends borrows (borrow entries)
+        args = [subst_handles(t, v, adder(None)) for t, v in zip(fm.params, args)]
+        for t, v in zip(fm.params, args):
+            for kind, h in handle_leaves(t, v, [], True):
+                expected.append("drop:%d:%d" % (h, 1 if kind == "own" else 0))      # the implementation drops what it received; the glue drops the borrows
+        # result: handles the guest is assumed to own already; lowering transfers them
+        if fm.result:
+            ret = subst_handles(fm.result, ret, adder(True))
+            for kind, h in handle_leaves(fm.result, ret, [], False):
+                expected.append("took:%d:%d" % (h, 0))
+        F, obs = R.export_call(mod, fm, args, ret)
+        if fm.result:
+            for kind, h in handle_leaves(fm.result, ret, [], False):
+                ask("HT LIFTOWN %d" % h)
+        ask("HT ENDCALL")
+    else:
+        args = [subst_handles(t, v, adder(True)) for t, v in zip(fm.params, args)]     # the guest owns what it passes or lends
+        for t, v in zip(fm.params, args):
+            for kind, h in handle_leaves(t, v, [], True):
+                expected.append(("took:%d:0" % h) if kind == "own" else ("drop:%d:1" % h))   # lent wrappers are dropped by their owner afterwards
+        if fm.result:
+            ret = subst_handles(fm.result, ret, adder(True))
+            for kind, h in handle_leaves(fm.result, ret, [], False):
+                expected.append("drop:%d:1" % h)                                          # the caller drops the result it received
+        F, obs = R.import_call(mod, fm, args, ret)
+        for t, v in zip(fm.params, args):
+            for kind, h in handle_leaves(t, v, [], True):
+                if kind == "own":
+                    ask("HT LIFTOWN %d" % h)
+    d = G.Guest.fields(ask("HT DUMP"))
+    evs = [re.sub(r"^(took:\d+):.*$", r"\1:0", x) for x in d.get("hev", "").split(",") if x]
+    return F, sorted(expected), sorted(evs), d, args, ret
